@@ -119,6 +119,13 @@ def run(tier, rng, C):
     pv, pstats = probes.run_probes("C17", [p for p in probes.PROBES if p["prop"] == "C17"], C)
     v += pv
     stats.update(pstats)
+    # the same library calls through the crate's own HTTP clients (reqwest, reqwest blocking, curl, ureq) against a scripted
+    # loopback server: the outcome must be the one an in-memory client given the same reply produces (gen/same.py)
+    from gen import same as SAME
+    bad_same, n_same = SAME.run("C17", SAME.cases(["code", "refresh", "introspect", "devauth", "revoke"], rng, statuses=(200, 400, 500), success_docs=2) + SAME.poll_cases(rng), C)
+    v += bad_same
+    stats["through_bundled_adapters"] = n_same
+    stats["evaluations"] = stats.get("evaluations", 0) + n_same
     stats["rule"] = ("every base case (request building for the 8 kinds, responses for 7 kinds with status/Content-Type/body classes and transport errors, the device poll loop with bounded scripts) is run in 7 variants: "
                      "blocking, future on a bare no-op-waker poll loop with 0..3 injected Pending per inner future, future on a tokio current-thread runtime with 0 and 2; each is compared with the extracted model and all 7 with each other; "
                      "2..4 requests in flight from one shared client under all 3^%d interleavings of the first poll steps (x2 pending counts) and random schedules, each compared with its solo outcome; 9 Send probes; every case non-trivial"
